@@ -410,14 +410,13 @@ class Spectrum(object):
         if self.datatype == 'complex':
             assert sides != ['onesided'], "complex data cannot be onesided (%s provided)" % sides
 
-        # If sides is indeed different, update the psd
-        if self.__psd is not None:
+        # If sides is indeed different, update the psd. An out-of-date PSD is
+        # left alone (and stays flagged): it is recomputed when it is read
+        if self.__psd is not None and self.modified is False:
             newpsd = self.get_converted_psd(sides)
             self.__psd = newpsd
         self.__sides = sides
         logging.debug('------------> %s %s' % (self.__sides, sides))
-        # we set the PSD by hand, so we can consider that PSD is up-to-date
-        self.modified = False
     _doc_sides = """Getter/Setter to the :attr:`sides` attributes.
 
     It can be 'onesided', 'twosided', 'centerdc'. This setter changes
@@ -573,6 +572,8 @@ class Spectrum(object):
             the psd on the fly, change the attribute :attr:`sides`.
 
         """
+        # make sure that the PSD is up-to-date (this may reset :attr:`sides`)
+        _ = self.psd
         if sides == self.sides:
             #nothing to be done is sides = :attr:`sides
             return self.__psd
